@@ -2,9 +2,10 @@
    Kernel level: the record built by the model of vcf_writer.py from the alleles that the model of the to_csv loop
    body (Model/ToCsv.v) hands to it.  Row level (generated mutators): the records the loop body writes for a row - anchors,
    widening to PAM codons included - are valid and reproduce the oligonucleotide / the mutated reference; rows of custom
-   variants (their own VCF anchor for the reference alleles) likewise.  The PAM record under background variants is tied to
-   the code row by row by the correspondence and judged by the independent oracle of the check (partial). *)
-From VV Require Import Model.Base Model.Pattern Model.Seq Model.Vcf Model.Gpo Model.ToCsv Proofs.VcfRecordProofs Proofs.MaveRowProofs Proofs.VcfRowProofs Proofs.VcfRowCustomProofs.
+   variants (their own VCF anchor for the reference alleles) likewise, and so is the PAM record under background variants (its
+   position is a reference coordinate: it is valid against the protected background sequence re-anchored there).  Rows of
+   custom variants under background variants included. *)
+From VV Require Import Model.Base Model.Pattern Model.Seq Model.Vcf Model.Gpo Model.ToCsv Proofs.VcfRecordProofs Proofs.MaveRowProofs Proofs.VcfRowProofs Proofs.VcfRowCustomProofs Proofs.VcfRowBgProofs.
 
 (* substitutions and widened records (both alleles non-empty, no anchor): no empty allele, REF is the sequence at POS,
    REF->ALT reproduces the target, for any flanks P, S *)
@@ -57,6 +58,57 @@ Example C09_row_example :
   | Err _ => False
   end.
 Proof. exact row_records_example. Qed.
+
+(* the PAM record of a generated mutator under background variants: POS is a reference coordinate (C06), REF / ALT are read in the protected
+   background sequence T; the record is valid against T anchored so that the mutation (or, widened to a PAM codon, the window start) sits at
+   its reference coordinate - delta is the difference between the reference and the background coordinate - and REF->ALT reproduces the
+   oligonucleotide *)
+Theorem C09_row_pam_record_ok_under_background : forall c g mr o xa (T : dna) pv r,
+  row_out c mr = Ok o -> o_vcf_pam o = Some r -> cx_gpo c = Some g -> mr_custom mr = false -> mr_vcf_nt mr = None ->
+  p_seq (cx_alt c) = mkSeq xa T -> p_prev (cx_alt c) = Some pv -> 1 <= xa ->
+  mr_end mr = get_end (mr_alt_pos mr) (zlen (mr_ref mr)) ->
+  let a := mr_alt_pos mr - xa in
+  0 <= a -> a + zlen (mr_ref mr) <= zlen T -> 4 <= mr_ref_pos mr ->
+  xa <= opt_min (mr_alt_pos mr) (mr_start_ppe mr) -> opt_max (mr_end mr) (mr_end_ppe mr) <= xa + zlen T - 1 ->
+  (forall y, alt_to_ref_position g (opt_min (mr_alt_pos mr) (mr_start_ppe mr)) = Ok (Some y) -> 1 <= y) ->
+  mr_oligo mr = zfirstn a T ++ mr_alt mr ++ zskipn (a + zlen (mr_ref mr)) T ->
+  exists delta,
+    (delta = mr_ref_pos mr - mr_alt_pos mr \/
+     exists ya, alt_to_ref_position g (opt_min (mr_alt_pos mr) (mr_start_ppe mr)) = Ok (Some ya) /\ delta = ya - opt_min (mr_alt_pos mr) (mr_start_ppe mr)) /\
+    rec_ok (xa + delta - 1) (pv :: T) r (pv :: mr_oligo mr).
+Proof. exact row_pam_record_ok_bg. Qed.
+
+(* ... and of a custom variant under background variants (insertion / deletion with its own anchor; substitution / deletion-insertion) *)
+Theorem C09_custom_indel_pam_record_ok_under_background : forall c g mr o xa (T : dna) pv r v,
+  row_out c mr = Ok o -> o_vcf_pam o = Some r -> cx_gpo c = Some g -> mr_custom mr = true -> mr_vcf_nt mr = Some v -> 4 <= mr_alt_pos mr ->
+  p_seq (cx_alt c) = mkSeq xa T -> p_prev (cx_alt c) = Some pv -> 1 <= xa ->
+  mr_end mr = get_end (mr_alt_pos mr) (zlen (mr_ref mr)) ->
+  let a := mr_alt_pos mr - xa in
+  0 <= a -> a + zlen (mr_ref mr) <= zlen T -> 4 <= mr_ref_pos mr ->
+  xa <= opt_min (mr_alt_pos mr) (mr_start_ppe mr) -> opt_max (mr_end mr) (mr_end_ppe mr) <= xa + zlen T - 1 ->
+  (forall y, alt_to_ref_position g (opt_min (mr_alt_pos mr) (mr_start_ppe mr)) = Ok (Some y) -> 1 <= y) ->
+  mr_oligo mr = zfirstn a T ++ mr_alt mr ++ zskipn (a + zlen (mr_ref mr)) T ->
+  exists delta,
+    (delta = mr_ref_pos mr - mr_alt_pos mr \/
+     exists ya, alt_to_ref_position g (opt_min (mr_alt_pos mr) (mr_start_ppe mr)) = Ok (Some ya) /\ delta = ya - opt_min (mr_alt_pos mr) (mr_start_ppe mr)) /\
+    rec_ok (xa + delta - 1) (pv :: T) r (pv :: mr_oligo mr).
+Proof. exact row_pam_record_ok_bg_custom_indel. Qed.
+
+Theorem C09_custom_subst_pam_record_ok_under_background : forall c g mr o xa (T : dna) pv r,
+  row_out c mr = Ok o -> o_vcf_pam o = Some r -> cx_gpo c = Some g -> mr_custom mr = true -> mr_vcf_nt mr = None ->
+  mr_ref mr <> [] -> mr_alt mr <> [] ->
+  p_seq (cx_alt c) = mkSeq xa T -> p_prev (cx_alt c) = Some pv -> 1 <= xa ->
+  mr_end mr = get_end (mr_alt_pos mr) (zlen (mr_ref mr)) ->
+  let a := mr_alt_pos mr - xa in
+  0 <= a -> a + zlen (mr_ref mr) <= zlen T -> 4 <= mr_ref_pos mr ->
+  xa <= opt_min (mr_alt_pos mr) (mr_start_ppe mr) -> opt_max (mr_end mr) (mr_end_ppe mr) <= xa + zlen T - 1 ->
+  (forall y, alt_to_ref_position g (opt_min (mr_alt_pos mr) (mr_start_ppe mr)) = Ok (Some y) -> 1 <= y) ->
+  mr_oligo mr = zfirstn a T ++ mr_alt mr ++ zskipn (a + zlen (mr_ref mr)) T ->
+  exists delta,
+    (delta = mr_ref_pos mr - mr_alt_pos mr \/
+     exists ya, alt_to_ref_position g (opt_min (mr_alt_pos mr) (mr_start_ppe mr)) = Ok (Some ya) /\ delta = ya - opt_min (mr_alt_pos mr) (mr_start_ppe mr)) /\
+    rec_ok (xa + delta - 1) (pv :: T) r (pv :: mr_oligo mr).
+Proof. exact row_pam_record_ok_bg_custom_subst. Qed.
 
 (* rows of custom variants.  An insertion or deletion carries the anchor of its own VCF record (vcf_nt = v): when v is the reference base
    before the change - the record's REF matched the genome - the REF-VCF record is valid against the reference and reproduces the mutated
@@ -140,3 +192,6 @@ Print Assumptions C09_custom_subst_ref_record_ok.
 Print Assumptions C09_custom_indel_pam_record_ok.
 Print Assumptions C09_custom_subst_pam_record_ok.
 Print Assumptions C09_custom_example.
+Print Assumptions C09_row_pam_record_ok_under_background.
+Print Assumptions C09_custom_indel_pam_record_ok_under_background.
+Print Assumptions C09_custom_subst_pam_record_ok_under_background.
